@@ -4,10 +4,16 @@ pub fn allocate<T>(num: usize) -> *mut T {
     let vec = Vec::<T>::with_capacity(num);
     let rptr = vec.as_ptr();
     mem::forget(vec);
+    #[cfg(feature = "multiqueue2_verif")]
+    crate::verif_hooks::on_alloc(rptr as usize, num * mem::size_of::<T>());
     rptr as *mut T
 }
 
 pub fn deallocate<T>(tofree: *mut T, num: usize) {
+    #[cfg(feature = "multiqueue2_verif")]
+    if crate::verif_hooks::on_dealloc(tofree as usize, num * mem::size_of::<T>()) {
+        return;
+    }
     unsafe {
         Vec::from_raw_parts(tofree, 0, num);
     }
